@@ -2,6 +2,7 @@ import StepModel.P21SafeLemmas
 import StepModel.P21SafeLoopLemmas
 import StepModel.P21SafeTermination
 import StepModel.P21SafeSteps
+import StepModel.P21SafeDataLemmas
 import StepModel.Generated.C05Buffers
 /-! # C05 — reading and writing Part 21 is memory-safe and terminates (the part Lean can carry)
 
@@ -462,6 +463,48 @@ theorem C05_steps_readTokenSeparator (s : IS) :
     (Nat.le_refl _) (s.rest.length + 2) s (by omega)
   have := pot_le (R := C05.readCommentIters) s
   exact ⟨r, h1, by omega⟩
+
+/-! ## the instance loop of pass 1 (`STEPfile::ReadData1`): termination, linear steps, cut-off, resynchronisation
+
+`_partial`: exchange files without `&SCOPE` (the `CreateScopeInstances` branch is not modelled) and without the
+working-session state letters; the reader of an external mapping's parts (`CreateSubSuperInstance`) is any function that
+never un-reads (`hsub`); what the dictionary and the instance manager answer is an arbitrary oracle. -/
+
+/-- For every byte string, oracle and part reader: `ReadData1` ends (fuel `|bytes| + 2`), never un-reads, makes at most
+`96·(|bytes| + 1) + readCommentIters + 20` steps over all nesting levels (instance loop, resynchronisation loop,
+`CreateInstance` skeleton, token separators, comments, `SkipInstance`, `FindStartOfInstance`, string literals), never
+counts more than `_maxErrorCount + 1` instances it could not create, and aborts exactly when it has counted that many. -/
+theorem C05_readData1_partial (o : Oracle) (sub : IS → IS) (hsub : ∀ s, (sub s).m ≤ s.m) (s : IS) :
+    ∃ r, readData1 o sub C05.skipInstanceSkipsComments C05.readCommentIters C05.maxErrorCount (s.rest.length + 2) s = .ok r ∧
+      r.s.m ≤ s.m ∧
+      r.steps ≤ 96 * (s.rest.length + 1) + C05.readCommentIters + 20 ∧
+      r.notCreated ≤ C05.maxErrorCount + 1 ∧ (r.aborted = true ↔ r.notCreated = C05.maxErrorCount + 1) :=
+  readData1_ok o sub hsub _ _ _ s
+
+/-- resynchronisation: whenever `FindStartOfInstance` reports success, the stream is good and its next byte is `#` -/
+theorem C05_findStartOfInstance_resync (fuel : Nat) (s : IS) (r : LoopRes)
+    (h : findStartOfInstance fuel s = .ok r) (hsev : r.sev = sevNull) :
+    ∃ t, r.s.rest = chHash :: t ∧ r.s.good = true :=
+  scanUntil_resync chHash false 0 fuel s 0 0 0 r (by decide) h hsev
+
+/-- … and the resynchronisation loop of `ReadData1` ends with `ENDSEC;` found, with `c == '#'`, or on a stream that
+is no longer good — for every input -/
+theorem C05_recoverLoop_exit (s : IS) (c : Byte) (steps : Nat) :
+    ∃ s' c' e st,
+      recoverLoop (findStartOfInstance (s.rest.length + 2))
+        (readTokenSeparator C05.skipInstanceSkipsComments C05.readCommentIters (s.rest.length + 2)) (s.rest.length + 2) s c steps
+        = .ok (s', c', e, st) ∧ (e = false → c' = chHash ∨ s'.good = false) := by
+  have hm : s.m ≤ s.rest.length + 1 := IS.m_le s
+  generalize hF : s.rest.length + 2 = F at *
+  have ht : StageOk C05.readCommentIters (readTokenSeparator C05.skipInstanceSkipsComments C05.readCommentIters F) 1 (F - 1) := by
+    intro t htB
+    exact readTokenSeparator_pot _ _ _ (Nat.le_refl _) F t (by omega)
+  have hfs : StageOk C05.readCommentIters (findStartOfInstance F) 1 (F - 1) := by
+    intro t htB
+    obtain ⟨r, a, b, c⟩ := scanUntil_pot C05.readCommentIters chHash true false 0 (Nat.zero_le _) F t 0 0 0 (by omega)
+    exact ⟨r, a, b, by omega⟩
+  obtain ⟨s', c', e, st, h1, _, _, h4⟩ := recoverLoop_ok hfs ht F s c steps (by omega) (by omega)
+  exact ⟨s', c', e, st, h1, h4⟩
 
 /-- regenerated facts the file-level budget relies on (not modelled proofs): the comment limit and the error cut-off
 are finite constants of the size the constant `c₂` of the linear bound absorbs, and `PushPastImbedAggr` does not
